@@ -1,10 +1,95 @@
-import BridgeVerif.Spec.PbnLayout
+import BridgeVerif.Lemmas.PbnCompose
+/-!
+# C18 — PBN export is read back by the PBN parser, one game per board
+
+`writeBoardResult? r` are the strings `PbnWriter.write_board_result` passes to the output stream for the result
+`r` (`none` = an assertion of the writer fails); `parseStream ∘ pyLines` is `PbnParser.parse_all` on the written
+text; `pbnBoardSettings?` is `parse_board_settings`.  `PbnResult.WF` (Spec/PbnLayout.lean): positive board number,
+hands complete or unknown, a result exactly when the board was played, free-text values without quote / line end /
+comment opener, every tag pair fitting on one 255-character line.
+-/
 namespace Bridge.C18
-theorem lines_at_most_255 : True := by sorry
-theorem written_lines_at_most_255 : True := by sorry
-theorem fifteen_tags_in_order : True := by sorry
-theorem passed_out_tags : True := by sorry
-theorem export_round_trip : True := by sorry
-theorem export_as_settings : True := by sorry
-theorem consecutive_results_are_separate_games : True := by sorry
+
+/-- `write_line` never writes more than 255 characters per line, for EVERY non-empty string: each written piece has
+at most 255 characters and ends with a line end, and removing the inserted line ends gives back the string -/
+theorem lines_at_most_255 (s : Str) (h : s ≠ []) :
+    ∃ cs, writeLine? s = some cs ∧ cs ≠ [] ∧ (∀ c ∈ cs, c.length ≤ MAX_LINE_CHARS ∧ c.getLast? = some '\n') ∧
+      (cs.map fun c => c.dropLast).flatten = (if s.getLast? = some '\n' then s.dropLast else s) :=
+  writeLine_chunks s h
+
+/-- no line of ANY written board result exceeds the limit (also with over-long values, which are wrapped) -/
+theorem written_lines_at_most_255 (r : PbnResult) (cs : List Str) (h : writeBoardResult? r = some cs) :
+    ∀ c ∈ cs, c.length ≤ MAX_LINE_CHARS ∧ c.getLast? = some '\n' :=
+  board_result_lines_at_most_255 r cs h
+
+/-- the fifteen mandatory tags, in the order of the standard, carrying the values that were given: vulnerability in
+PBN spelling, date as YYYY.MM.DD, board number in decimal -/
+theorem fifteen_tags_in_order (r : PbnResult) (tags : List (Str × Str)) (h : resultTags? r = some tags) :
+    tags.map (·.1) = mandatoryTags ∧
+    tags = [("Event".toList, r.event), ("Site".toList, r.site), ("Date".toList, dateStr r.year r.month r.day),
+      ("Board".toList, intRepr r.boardNum), ("West".toList, r.west), ("North".toList, r.north),
+      ("East".toList, r.east), ("South".toList, r.south), ("Dealer".toList, r.dealer.name),
+      ("Vulnerable".toList, vulPbn r.contract.vul), ("Deal".toList, (toPbn? r.deal r.dealer).getD []),
+      ("Scoring".toList, r.scoring.value),
+      ("Declarer".toList, if r.contract.isPassedOut then [] else seatOptStr r.contract.declarer),
+      ("Contract".toList, if r.contract.isPassedOut then "Pass".toList else contractStr r.contract),
+      ("Result".toList, match r.tricks with | some n => if r.contract.isPassedOut then [] else intRepr n | none => [])] :=
+  ⟨resultTags_names r tags h, resultTags_values r tags h⟩
+
+/-- a passed-out board: empty declarer and result, contract "Pass" -/
+theorem passed_out_tags (r : PbnResult) (tags : List (Str × Str)) (h : resultTags? r = some tags)
+    (hpo : r.contract.isPassedOut = true) :
+    (tags.find? fun kv => kv.1 == "Declarer".toList).map (·.2) = some [] ∧
+    (tags.find? fun kv => kv.1 == "Contract".toList).map (·.2) = some "Pass".toList ∧
+    (tags.find? fun kv => kv.1 == "Result".toList).map (·.2) = some [] := by
+  rw [resultTags_values r tags h, hpo]
+  refine ⟨by simp, by simp, ?_⟩
+  cases r.tricks <;> simp
+
+/-- **Main theorem.** Any sequence of well-formed board results is written (no assertion fails) and the parser reads
+the written text back as one game per result, in the order written, each game being exactly the fifteen tags with the
+values that were written -/
+theorem export_round_trip (rs : List PbnResult) (h : ∀ r ∈ rs, r.WF) :
+    ∃ tagss css, rs.mapM resultTags? = some tagss ∧ rs.mapM writeBoardResult? = some css ∧
+      parseStream (pyLines css.flatten.flatten) = tagss := by
+  obtain ⟨tagss, css, h1, h2, h3, h4⟩ := export_is_layout rs h
+  refine ⟨tagss, css, h1, h2, ?_⟩
+  have htext : css.flatten.flatten = (exportFile tagss).text := by rw [h3]; rfl
+  rw [htext, pyLines_text _ h4, parseStream_layout _ h4]
+  -- every game is its fifteen tags: the names are pairwise different, so "first occurrence wins" drops nothing
+  have hnames : ∀ tags ∈ tagss, firstWins tags [] = tags := by
+    intro tags ht
+    obtain ⟨r, hr, hrt⟩ := mapM_mem_some h1 tags ht
+    rw [resultTags_values r tags hrt]
+    simp [firstWins]
+  simp only [exportFile, List.map_map]
+  rw [show tagss = tagss.map id by simp]
+  rw [List.map_map]
+  apply List.map_congr_left
+  intro tags ht
+  simp only [Function.comp_def, id]
+  rw [resultGame_tagList]
+  exact hnames tags ht
+
+/-- consecutive results are separate games, as many games as results -/
+theorem consecutive_results_are_separate_games (rs : List PbnResult) (h : ∀ r ∈ rs, r.WF) :
+    ∃ css, rs.mapM writeBoardResult? = some css ∧ (parseStream (pyLines css.flatten.flatten)).length = rs.length := by
+  obtain ⟨tagss, css, h1, h2, h3⟩ := export_round_trip rs h
+  exact ⟨css, h2, by rw [h3]; exact mapM_length h1⟩
+
+/-- deal, dealer, vulnerability and board number of every written result are recovered as a board setting -/
+theorem export_as_settings (rs : List PbnResult) (h : ∀ r ∈ rs, r.WF) :
+    ∃ css ss, rs.mapM writeBoardResult? = some css ∧ pbnBoardSettings? (pyLines css.flatten.flatten) = some ss ∧
+      ss.length = rs.length ∧
+      ∀ i (h₁ : i < ss.length) (h₂ : i < rs.length),
+        SameBoard ss[i] ⟨intRepr rs[i].boardNum, rs[i].dealer, rs[i].deal, rs[i].contract.vul, none⟩ :=
+  export_settings rs h
+
+/-- before the repair (no empty line after a game) two results were read back as ONE game (kernel-evaluated witness) -/
+theorem old_writer_merged_games :
+    ∃ r : PbnResult, r.WF ∧ ∃ cs, writeBoardResultOld? r = some cs ∧
+      (parseStream (pyLines (cs ++ cs).flatten)).length = 1 ∧
+      ∃ cs', writeBoardResult? r = some cs' ∧ (parseStream (pyLines (cs' ++ cs').flatten)).length = 2 :=
+  old_writer_merges_games
+
 end Bridge.C18
